@@ -64,3 +64,36 @@ Example C02_rejects_a_wrong_operand :
      Copy (Mem 1) (Imm 0); BrNZ 0 (-4); Outp 2]
     [CLoop 3 7 {| f_c := []; f_d := []; f_t := []; f_nz := [] |}] = false.
 Proof. vm_compute. reflexivity. Qed.
+
+(** ** level 0, end to end: from the source text to the bytecode, for every input.
+    At level 0 the IR is the parser's output ([Program::optimize(0)] returns it unchanged); composing
+    [C01_level0_states] (parser + IR interpreter = canonical semantics, every program) with the
+    validator's theorem: if the bytecode generated for the parsed program is accepted, then whenever
+    the canonical run of the source terminates (or stops on an I/O failure), the bytecode model ends
+    the same way with the same I/O state. *)
+From HPBF Require Import BF Parse BigStepProofs Level0Proofs.
+
+Definition same_events_bc (o : outcome bfst) (o' : outcome bcst) : Prop :=
+  match o, o' with
+  | Done s, Done s' => io s = bc_io s'
+  | Stopped s, Stopped s' => io s = bc_io s'
+  | _, _ => False
+  end.
+
+Theorem C02_level0_source_to_bytecode : forall w e src ast blk fuse (p : bprog) cs f o,
+  ast_of_source src = Some ast -> parse w src = POk blk ->
+  tv_check w fuse blk (bp_code p) cs = true ->
+  bf_exec w e f ast bf0 = o -> terminal o ->
+  exists fuel', same_events_bc o (bc_run w e false 0 fuel' p).
+Proof.
+  intros w e src ast blk fuse p cs f o HA HP HT HO T.
+  assert (Hw : 0 <= w) by (unfold tv_check in HT; apply andb_prop in HT; destruct HT as [H _]; apply Z.leb_le; exact H).
+  destruct (level0_correct w e src ast f o Hw HA HO T) as (blk' & fi & o' & HP' & HR & SE).
+  rewrite HP in HP'. injection HP' as <-.
+  destruct o as [s|s|s|q s|s]; try contradiction; destruct o' as [s'|s'|s'|q' s'|s']; try contradiction; cbn [same_events] in SE.
+  - destruct (proj1 (tv_sound w fuse blk p cs e 0 HT fi s') HR) as (g & sb & E1 & E2).
+    exists g. rewrite E1. cbn [same_events_bc]. congruence.
+  - destruct (proj2 (tv_sound w fuse blk p cs e 0 HT fi s') HR) as (g & sb & E1 & E2).
+    exists g. rewrite E1. cbn [same_events_bc]. congruence.
+Qed.
+Print Assumptions C02_level0_source_to_bytecode.
